@@ -106,6 +106,15 @@ func checkC19(c *core.Ctx) error {
 	if !c.Quick() {
 		// 3 inputs x 2 items and 2 inputs x 3 items (pipeline: 3x2 and 2x3), all capacities
 		p.cfgs = dedup(append(append(append(append(linearCfgs(3, 2), joinCfgs(3, 2, 2)...), joinCfgs(2, 3, 2)...), pipeCfgs(3, 2, 2)...), pipeCfgs(2, 3, 2)...))
+		// measured: the 3-input chan/slice joins with capacity 2 cost ~90 s each and add no new shape over capacity 1
+		var keep []obs.Cfg
+		for _, cf := range p.cfgs {
+			if len(cf.Items) == 3 && cf.Cap == 2 && (cf.Comb == "joinchan" || cf.Comb == "joinslice") {
+				continue
+			}
+			keep = append(keep, cf)
+		}
+		p.cfgs = keep
 		p.mc = []mcRun{
 			{name: "dup,fmap: 0..3 items x cap 0..2", cfgText: mcCfg(`"dup", "fmap"`, 1, 3, 2, true), workers: 2},
 			{name: "joinchan: 0..3 inputs x 0..2 items x cap 0", cfgText: mcCfg(`"joinchan"`, 3, 2, 0, true), workers: 4},
@@ -118,7 +127,7 @@ func checkC19(c *core.Ctx) error {
 		p.simCfg = simCfg(all, 3, 2, 2)
 		p.nSim = 20000
 		p.stress = 60
-		p.logRuns, p.logLines = 10, 220
+		p.logRuns, p.logLines = 8, 150
 	}
 	p.mc = append(p.mc, chaosMC())
 	p.realCfgs = p.cfgs
